@@ -585,6 +585,13 @@ type Dialer struct {
 	mu    sync.Mutex
 }
 
+// DialCount returns the number of Dial calls so far.
+func (d *Dialer) DialCount() int {
+	d.mu.Lock()
+	defer d.mu.Unlock()
+	return d.Dials
+}
+
 // SetFail makes subsequent Dial calls fail (true) or succeed again (false).
 func (d *Dialer) SetFail(on bool) {
 	d.mu.Lock()
